@@ -123,6 +123,7 @@ class Gen:
         if dialect == "xsd":
             self.feats = self.feats - {"nc", "reluctant", "anchor", "bref"}
         self.max_rep = max_rep
+        self.max_qdepth = 2          # deeper nesting of quantifiers only buys exponential backtracking
 
     def char(self):
         return self.rng.choice(self.alpha)
@@ -188,7 +189,7 @@ class Gen:
             return (mn, None)
         return (mn, mn + r.randint(0, 2))
 
-    def re(self, size):
+    def re(self, size, qdepth=0):
         r = self.rng
         if size <= 1:
             return self.leaf()
@@ -196,19 +197,19 @@ class Gen:
         if k < 0.35:
             n = r.randint(2, min(4, size))
             parts = self.split(size - 1, n)
-            return ("seq", [self.re(p) for p in parts])
+            return ("seq", [self.re(p, qdepth) for p in parts])
         if k < 0.55 and "alt" in self.feats:
             n = r.randint(2, min(3, size))
             parts = self.split(size - 1, n)
-            return ("alt", [self.re(p) for p in parts])
-        if k < 0.8 and "quant" in self.feats:
+            return ("alt", [self.re(p, qdepth) for p in parts])
+        if k < 0.8 and "quant" in self.feats and qdepth < self.max_qdepth:
             mn, mx = self.bounds()
             greedy = not ("reluctant" in self.feats and r.random() < 0.35)
-            return ("q", self.re(size - 1), mn, mx, greedy)
+            return ("q", self.re(size - 1, qdepth + 1), mn, mx, greedy)
         if k < 0.92 and "grp" in self.feats:
-            return ("grp", self.re(size - 1))
+            return ("grp", self.re(size - 1, qdepth))
         if "nc" in self.feats:
-            return ("nc", self.re(size - 1))
+            return ("nc", self.re(size - 1, qdepth))
         return self.leaf()
 
     def split(self, total, n):
@@ -311,3 +312,43 @@ def all_strings(alphabet, maxlen):
         frontier = [s + c for s in frontier for c in alphabet]
         out += frontier
     return out
+
+
+def wrap_groups(rng, node, prob=0.3):
+    """wrap random subtrees in capturing groups"""
+    t = node[0]
+    if t in ("grp", "nc"):
+        out = (t, wrap_groups(rng, node[1], prob))
+    elif t in ("seq", "alt"):
+        out = (t, [wrap_groups(rng, x, prob) for x in node[1]])
+    elif t == "q":
+        out = ("q", wrap_groups(rng, node[1], prob), node[2], node[3], node[4])
+    else:
+        out = node
+    if t not in ("grp", "bol", "eol", "bref") and rng.random() < prob:
+        return ("grp", out)
+    return out
+
+
+def add_brefs(rng, node, prob=0.35):
+    """insert back-reference leaves after sequence members (fix_brefs later makes them legal)"""
+    t = node[0]
+    if t in ("grp", "nc"):
+        return (t, add_brefs(rng, node[1], prob))
+    if t == "alt":
+        return (t, [add_brefs(rng, x, prob) for x in node[1]])
+    if t == "q":
+        return ("q", add_brefs(rng, node[1], prob), node[2], node[3], node[4])
+    if t == "seq":
+        out = []
+        for x in node[1]:
+            out.append(add_brefs(rng, x, prob))
+            if rng.random() < prob:
+                br = ("bref", 1)
+                if rng.random() < 0.3:
+                    br = ("q", br, *rng.choice([(0, 1), (0, None), (1, 2)]), True)
+                out.append(br)
+        return ("seq", out)
+    if rng.random() < prob:
+        return ("seq", [node, ("bref", 1)])
+    return node
